@@ -11,7 +11,10 @@ verdict, so the loader first brings every module to a canonical form:
      the pinned tree by tools/gen_local_names.py) when their *defining site* is textually the same: a renamed local
      (alpha-equivalent code) is analysed under the name the rules know.
 
-All four are semantics-preserving, positions (lineno) are kept for the reports. A definition that changed is not
+  5. a temporary the reference does not know, assigned once and read once by the next statement (before any other
+     call), is inlined again (undoes "extract variable").
+
+All five are semantics-preserving, positions (lineno) are kept for the reports. A definition that changed is not
 matched by (4) and is analysed as it is.
 """
 import ast
@@ -179,8 +182,7 @@ def reference_table(root: str) -> Dict[str, Dict[str, Dict[str, List[str]]]]:
             mod: Dict[str, Dict[str, List[str]]] = {}
             for q, fn in _functions(tree):
                 sites = _indexed(binding_sites(fn))
-                if sites:
-                    mod[q] = {k: names for k, names in sites}
+                mod[q] = {k: names for k, names in sites}   # also functions without locals: a temporary added to them is "fresh"
             if mod:
                 table[rel] = mod
     return table
@@ -235,8 +237,72 @@ def restore_local_names(tree: ast.Module, relpath: str):
                 break
 
 
+def inline_fresh_temporaries(tree: ast.Module, relpath: str):
+    """5. `tmp = E` where `tmp` is a local the reference does not know (no defining site with that key in the function),
+    assigned once and read once, by the statement that follows, before anything else is called there: E is put back in
+    place of the read (undoes an extract-variable refactoring)."""
+    ref = _ref().get(relpath)
+    if not ref:
+        return
+    import copy
+    for q, fn in _functions(tree):
+        want = ref.get(q)
+        if want is None:
+            continue
+        known = set(want)
+        known_names = {nm for names in want.values() for nm in names}   # a known name with a new definition is a change, not a temporary
+        for _ in range(20):
+            done = True
+            idx = dict()
+            for k, names in _indexed(binding_sites(fn)):
+                for nm in names:
+                    idx.setdefault(nm, []).append(k)
+            for blk in ast.walk(fn):
+                for field in ("body", "orelse", "finalbody"):
+                    stmts = getattr(blk, field, None)
+                    if not isinstance(stmts, list):
+                        continue
+                    for i, st in enumerate(stmts[:-1]):
+                        if not (isinstance(st, ast.Assign) and len(st.targets) == 1 and isinstance(st.targets[0], ast.Name)):
+                            continue
+                        nm = st.targets[0].id
+                        keys = idx.get(nm, [])
+                        if len(keys) != 1 or keys[0] in known or nm in known_names:
+                            continue
+                        reads = [x for x in ast.walk(fn) if isinstance(x, ast.Name) and x.id == nm and isinstance(x.ctx, ast.Load)]
+                        nxt = stmts[i + 1]
+                        if len(reads) != 1 or not any(x is reads[0] for x in ast.walk(nxt)):
+                            continue
+                        if any(isinstance(x, (ast.Lambda, ast.FunctionDef, ast.AsyncFunctionDef, ast.ListComp, ast.GeneratorExp, ast.DictComp, ast.SetComp)) and any(y is reads[0] for y in ast.walk(x)) for x in ast.walk(nxt)):
+                            continue
+                        r = reads[0]
+                        # nothing is called in the next statement before the read is evaluated
+                        head = nxt.test if isinstance(nxt, (ast.If, ast.While)) else nxt.iter if isinstance(nxt, ast.For) else nxt
+                        if not any(x is r for x in ast.walk(head)):
+                            continue
+                        early = [c for c in ast.walk(head) if isinstance(c, ast.Call) and not any(y is r for y in ast.walk(c))
+                                 and (c.end_lineno, c.end_col_offset) <= (r.lineno, r.col_offset)]
+                        if early:
+                            continue
+
+                        class Put(ast.NodeTransformer):
+                            def visit_Name(self, n):
+                                return ast.copy_location(copy.deepcopy(st.value), n) if n is r else n
+                        stmts[i + 1] = Put().visit(nxt)
+                        del stmts[i]
+                        done = False
+                        break
+                    if not done:
+                        break
+                if not done:
+                    break
+            if done:
+                break
+
+
 def canonicalise(tree: ast.Module, relpath: str) -> ast.Module:
     _Shape().visit(tree)
     restore_local_names(tree, relpath)
+    inline_fresh_temporaries(tree, relpath)
     ast.fix_missing_locations(tree)
     return tree
